@@ -72,9 +72,17 @@ func genC09Atom(rng *rand.Rand, c ColSpec, key bool) Atom {
 		return AI(c09Ints[rng.Intn(len(c09Ints))])
 	case "uuid":
 		return AU(uuidPool[1+rng.Intn(len(uuidPool)-1)])
+	case "real":
+		if rng.Intn(4) == 0 {
+			// whole numbers too large for a float64 to write them with a fraction or an exponent: on the wire they
+			// are digit strings, within and beyond the range of a 64-bit integer
+			return AR(c09Reals[rng.Intn(len(c09Reals))])
+		}
 	}
 	return genAtom(rng, t)
 }
+
+var c09Reals = []float64{1 << 62, -(1 << 60), 1.2e18, 9007199254740994, 1e19, 1e20, 18446744073709551616, -9223372036854775808 * 2, 1.2345678901234568e20}
 
 // genC09Value: a value of the column's type within its min/max
 func genC09Value(rng *rand.Rand, c ColSpec) *Value {
